@@ -2,6 +2,7 @@ import Rg.Proofs.Walk
 import Rg.Proofs.WalkOrder
 import Rg.Proofs.Rules
 import Rg.Gen.WalkTables
+import Rg.Gen.Buckets
 /-!
 # C01 — every matching node of a file is reported exactly once, nothing else
 
@@ -86,15 +87,23 @@ example : pick false (fun r => if r.id = 0 then [true, false] else [true])
 /-- a whole run: reports as (node id, rule id) in delivery order -/
 def run (C : Cfg) (T : Nat → Row) (dst : Nat → List Nat) (multi : Nat → Bool)
     (hist : List (List Rule)) (cb : Nat → Rule → List Bool) (t : Tree) : List (Nat × Nat) :=
-  (trace C T t).flatMap fun v =>
-    (runRules (multi v.tag) (cb v.id) (loadAll dst hist v.tag)).map fun r => (v.id, r)
+  runOver dst multi hist cb ((trace C T t).map fun v => (v.id, v.tag))
 
 /-- the property's right-hand side -/
 def specRun (C : Cfg) (A : Nat → List Nat) (G : Nat → Option Nat) (dst : Nat → List Nat)
     (multi : Nat → Bool) (hist : List (List Rule)) (cb : Nat → Rule → List Bool) (t : Tree) :
     List (Nat × Nat) :=
-  (specFull C A G fresh [] t).flatMap fun v =>
-    (pick (multi v.tag) (cb v.id) (rulesFor dst hist v.tag)).map fun r => (v.id, r)
+  specOver dst multi hist cb ((specFull C A G fresh [] t).map fun v => (v.id, v.tag))
+
+/-- the rule loop over any visit sequence (single-callback patterns) -/
+theorem runOver_eq_specOver_partial (dst : Nat → List Nat) (multi : Nat → Bool)
+    (hist : List (List Rule)) (cb : Nat → Rule → List Bool) (hcb : ∀ n r, (cb n r).length ≤ 1)
+    (visits : List (Nat × Nat)) :
+    runOver dst multi hist cb visits = specOver dst multi hist cb visits := by
+  unfold runOver specOver
+  apply flatMap_congr'
+  intro v _
+  rw [buckets_sound_complete, runRules_single _ _ _ (fun r _ => hcb v.1 r)]
 
 /-- **C01 for the model** (single-callback patterns): the reports of a run are exactly the (node, rule)
 pairs obtained by offering every tagged node in source order to the rules in load order. -/
@@ -106,9 +115,38 @@ theorem run_eq_spec_partial (dst : Nat → List Nat) (multi : Nat → Bool)
       specRun Gen.cfg Gen.tables.A Gen.tables.G dst multi hist cb t := by
   unfold run specRun
   rw [walker_offers_every_node t hwt]
-  apply flatMap_congr'
-  intro v _
-  rw [buckets_sound_complete, runRules_single _ _ _ (fun r _ => hcb v.id r)]
+  exact runOver_eq_specOver_partial dst multi hist cb hcb _
+
+/-! ### the bucket table regenerated from `loadSyntaxRule` -/
+
+/-- expected placement: an ordinary root tag goes to its own bucket; statement lists to every node
+kind holding a statement list, expression lists to calls / composite literals / returns, declaration
+lists to the file; `Node` (too general) and `Unknown` are load errors. -/
+def expectedDst (t : Nat) : Option (List Nat) :=
+  if t = Gen.tagUnknown ∨ t = Gen.tagNode then none
+  else if t = Gen.tagStmtList then some [Gen.tagBlockStmt, Gen.tagCaseClause, Gen.tagCommClause]
+  else if t = Gen.tagExprList then some [Gen.tagCallExpr, Gen.tagCompositeLit, Gen.tagReturnStmt]
+  else if t = Gen.tagDeclList then some [Gen.tagFile]
+  else if t < Gen.tagNumBuckets then some [t]
+  else none
+
+/-- the walker visits nodes with tag `b` (some kind carries it) -/
+def walkerVisitsTag (b : Nat) : Bool := Gen.walkRows.any (fun r => r.tag == some b)
+
+/-- instance obligations: no root tag makes Load panic; every producible root tag is either rejected
+or filed under exactly the expected buckets, all of which are in range and visited by the walker;
+multi-match tags are exactly the targets of list fan-out. -/
+theorem gen_buckets_no_panic : Gen.dstPanics = [] := by decide
+theorem gen_buckets_ok : Gen.dstRows.all (fun r => r.2 == expectedDst r.1) = true := by decide
+theorem gen_buckets_visited :
+    Gen.dstRows.all (fun r => match r.2 with
+      | some bs => bs.all (fun b => decide (b < Gen.numBuckets) && walkerVisitsTag b)
+      | none => true) = true := by decide
+theorem gen_multimatch : Gen.multiMatchTags =
+    [Gen.tagBlockStmt, Gen.tagCaseClause, Gen.tagCommClause, Gen.tagFile] := by decide
+theorem gen_buckets_cover : (Gen.dstRows.map (·.1)).contains Gen.tagStmtList ∧
+    (Gen.dstRows.map (·.1)).contains Gen.tagExprList ∧ (Gen.dstRows.map (·.1)).contains Gen.tagDeclList ∧
+    40 ≤ Gen.dstRows.length := by decide
 
 /-! ### non-vacuity -/
 
